@@ -137,6 +137,16 @@ pub fn cases(tier: &str, seed: u64, focus: &str) -> Vec<RsCase> {
         return out;
     }
 
+    // ---------------------------------------------------------------- C12: block structure of every size
+    if focus == "C12" {
+        for s in &sizes {
+            for _ in 0..(if thorough { 6 } else { 2 }) {
+                out.push(RsCase { stratum: "random", size: s, data: Some(rand_vec(&mut rng, s.data)), errs: vec![], recv: None, correct: false });
+            }
+        }
+        return out;
+    }
+
     // ---------------------------------------------------------------- C03: errors within capacity
     if focus == "C03" {
         for s in &sizes {
@@ -254,6 +264,45 @@ pub fn cases(tier: &str, seed: u64, focus: &str) -> Vec<RsCase> {
             let mut w = vec![0xFFu8, 0xFF, 0xFF];
             w.extend(rand_vec(&mut rng, s.total()));
             out.push(RsCase { stratum: "randomWord", size: s, data: None, errs: vec![], recv: Some(w), correct: true });
+        }
+        // (e) C05: received words with a prescribed zero pattern of the syndrome vector of one block
+        if c05 {
+            let mut pats: Vec<Vec<bool>> = Vec::new(); // true = zero
+            if k <= 7 {
+                for m in 0..(1u32 << k) - 1 {
+                    pats.push((0..k).map(|i| m & (1 << i) != 0).collect());
+                }
+            } else {
+                for i in 0..k {
+                    pats.push((0..k).map(|j| j == i).collect()); // single zero
+                    pats.push((0..k).map(|j| j == i || j == i + 1).collect()); // double zero
+                    if thorough {
+                        pats.push((0..k).map(|j| j != i).collect()); // single non-zero
+                        pats.push((0..k).map(|j| j >= i).collect()); // trailing zeros
+                    }
+                }
+                pats.push((0..k).map(|j| j % 2 == 0).collect());
+                pats.push((0..k).map(|j| j % 2 == 1).collect());
+                pats.push((0..k).map(|j| j >= 1 && j <= k / 2).collect()); // S1 != 0, then t zeros
+                pats.push((0..k).map(|j| j >= 1).collect());
+                for _ in 0..(if thorough { 40 } else { 6 }) {
+                    let p = rng.range(1, 3);
+                    pats.push((0..k).map(|_| rng.chance(p, 4)).collect());
+                }
+            }
+            for pat in pats {
+                for b in [0, s.blocks - 1] {
+                    let syn: Vec<u8> = pat.iter().map(|z| if *z { 0 } else { nz(&mut rng) }).collect();
+                    if let Some(e) = gf.solve_syndromes(&syn) {
+                        // e_d is the coefficient of x^d: as polynomial highest degree first
+                        let poly: Vec<u8> = e.iter().rev().copied().collect();
+                        out.push(RsCase { stratum: "prescribed", size: s, data: Some(rand_vec(&mut rng, s.data)), errs: vec![], recv: Some(vec![b as u8, 0, 0].into_iter().chain(poly.into_iter()).collect()), correct: true });
+                    }
+                    if s.blocks == 1 {
+                        break;
+                    }
+                }
+            }
         }
         // (d) C05: single zero syndromes / alternating patterns are reached through random low-weight
         // combinations of root multiples: add two root multiples with different m
